@@ -274,8 +274,11 @@ def run(repo: Repo) -> Result:
             continue
         n_f += 1
         res.ob(f"{c.qual}.__call__")
-        t = ltext(f.node, local_names(f.node))  # local names written `_`
-        if "self.format_message(context, _, kwargs)" not in t:
+        from ..normalize import nfunc as _nf26
+
+        fn_ = _nf26(repo, f, keep=("format_message", "_resolve_translations", "_count"))  # private helpers of the filter inlined
+        t = ltext(fn_.node, local_names(fn_.node))  # local names written `_`
+        if "self.format_message(context, _, kwargs)" not in t and "self.format_message(context, _, _)" not in t:
             res.add("C26-VARS", f.qual, "format", f"{f.qual} must interpolate with self.format_message(context, text, kwargs)", f.file, f.line)
     if n_f < 5:
         raise AnchorMissing(f"only {n_f} translate filters found")
